@@ -33,7 +33,8 @@ def DSt.prog (d : DSt) : Prog :=
                        key := kindKey kind k, targets := [m], recheck := (kindKey kind k).isSome }
         | .cancel k => HCmd.cancel k
     clock := fun n => (d.lags.find? (·.1 == n)).map (·.2)
-    ext := fun n => (d.exts.filter (·.1 == n)).map (·.2) }
+    ext := fun n => (d.exts.filter (·.1 == n)).map (·.2)
+    inits := d.nmodels }
 
 def showRes : Res → String
   | .ok => "ok" | .invalidTime => "invalid-time" | .nullPeriod => "null-period"
